@@ -8,6 +8,13 @@
 //!   AN E <timeout> <cap> <now@ev[x][y],..>    the same with a session window (its unused `duration` is 3*timeout+7)
 //!   AG <ev,..>                                the other aggregates of Aggregator::aggregate over one window holding all the events:
 //!                                             obs := first/last/count_distinct/key=count,..(by key, `_` = empty)/p0,p25,p50,p75,p100/std(+|-)
+//!   XV <r|a> <ev,..>                         min / max / sum of ONE window (filled by `record` / `add_event`) whose numeric fields range over
+//!                                             all of f64: val additionally p (+inf) | q (-inf) | z (NaN) | M (f64::MAX) | L (f64::MIN);
+//!                                             obs := T:min,max,sum/A:min,max/O:min,max  (TimeWindow / Aggregator / operators::{Min,Max});
+//!                                             results print as `-` (None), an integer, p, q, z (any NaN), M, L; `n` = not observed
+//!                                             (sum when a NaN or ±f64::MAX is present: depends on the order of addition; operators::Min/Max
+//!                                             when a NaN is present: they compare with `partial_cmp().unwrap()`)
+//! <d> := <ms> (Duration::from_millis) | u<micros> (Duration::from_micros: durations that are not whole milliseconds)
 //! ev := <ts>:<val>   val := n<int> (Value::Number) | i<int> (Value::Integer) | s (String "7") | t<int> (String of the integer) | m (missing)
 //! event id = position in the case's list.  x = foreign stream name, y = foreign event type.
 //! obs (`;` between steps, `+` between windows, `/` between fields, `-` = empty / None, `_` = no window):
@@ -66,7 +73,7 @@ fn parse_ev(tok: &str) -> Option<Ev> {
         b't' => {
             val[1..].parse::<i64>().ok()?;
         }
-        b's' | b'm' if val.len() == 1 => {}
+        b's' | b'm' | b'p' | b'q' | b'z' | b'M' | b'L' if val.len() == 1 => {}
         _ => return None,
     }
     Some(Ev { ts, val: val.to_string(), foreign_stream: fx, foreign_type: fy })
@@ -83,6 +90,21 @@ fn mk_event(id: usize, e: &Ev) -> StreamEvent {
         }
         b's' => {
             data.insert(FIELD.to_string(), Value::String("7".to_string()));
+        }
+        b'p' => {
+            data.insert(FIELD.to_string(), Value::Number(f64::INFINITY));
+        }
+        b'q' => {
+            data.insert(FIELD.to_string(), Value::Number(f64::NEG_INFINITY));
+        }
+        b'z' => {
+            data.insert(FIELD.to_string(), Value::Number(f64::NAN));
+        }
+        b'M' => {
+            data.insert(FIELD.to_string(), Value::Number(f64::MAX));
+        }
+        b'L' => {
+            data.insert(FIELD.to_string(), Value::Number(f64::MIN));
         }
         b't' => {
             data.insert(FIELD.to_string(), Value::String(e.val[1..].parse::<i64>().unwrap().to_string()));
@@ -107,6 +129,14 @@ fn wtype(s: &str) -> Option<WindowType> {
         "T" => Some(WindowType::Tumbling),
         "N" => Some(WindowType::Session { timeout: Duration::from_millis(5) }),
         _ => None,
+    }
+}
+
+/// `<ms>` or `u<micros>`
+fn parse_dur(s: &str) -> Option<Duration> {
+    match s.strip_prefix('u') {
+        Some(us) => us.parse::<u64>().ok().map(Duration::from_micros),
+        None => s.parse::<u64>().ok().map(Duration::from_millis),
     }
 }
 
@@ -201,8 +231,8 @@ fn window_obs(w: &TimeWindow) -> String {
 
 // ---------------------------------------------------------------- exec
 fn exec_tw(t: &[&str]) -> Option<String> {
-    let (ty, d, start, cap) = (wtype(t[1])?, t[2].parse::<u64>().ok()?, t[3].parse::<u64>().ok()?, t[4].parse::<usize>().ok()?);
-    let mut w = TimeWindow::new(ty, Duration::from_millis(d), start, cap);
+    let (ty, d, start, cap) = (wtype(t[1])?, parse_dur(t[2])?, t[3].parse::<u64>().ok()?, t[4].parse::<usize>().ok()?);
+    let mut w = TimeWindow::new(ty, d, start, cap);
     let mut steps = Vec::new();
     for (i, op) in list(t[5]).iter().enumerate() {
         let e = parse_ev(&op[1..])?;
@@ -240,8 +270,8 @@ fn windows_obs(ws: &[&TimeWindow]) -> String {
 }
 
 fn exec_wm(t: &[&str]) -> Option<String> {
-    let (ty, d, cap, maxw) = (wtype(t[1])?, t[2].parse::<u64>().ok()?, t[3].parse::<usize>().ok()?, t[4].parse::<usize>().ok()?);
-    let mut m = WindowManager::new(ty, Duration::from_millis(d), cap, maxw);
+    let (ty, d, cap, maxw) = (wtype(t[1])?, parse_dur(t[2])?, t[3].parse::<usize>().ok()?, t[4].parse::<usize>().ok()?);
+    let mut m = WindowManager::new(ty, d, cap, maxw);
     let mut steps = Vec::new();
     for (i, tok) in list(t[5]).iter().enumerate() {
         let e = parse_ev(tok)?;
@@ -255,13 +285,13 @@ fn exec_ws(t: &[&str]) -> Option<String> {
     if t[1] != "T" {
         return exec_ws_sliding(t);
     }
-    let (d, cap) = (t[2].parse::<u64>().ok()?, t[3].parse::<usize>().ok()?);
+    let (d, cap) = (parse_dur(t[2])?, t[3].parse::<usize>().ok()?);
     let evs: Vec<StreamEvent> = list(t[4])
         .iter()
         .enumerate()
         .map(|(i, tok)| parse_ev(tok).map(|e| mk_event(i, &e)))
         .collect::<Option<Vec<_>>>()?;
-    let cfg = WindowConfig::tumbling(Duration::from_millis(d)).with_max_events(cap);
+    let cfg = WindowConfig::tumbling(d).with_max_events(cap);
     let s = WindowedStream::new(evs.clone(), cfg.clone());
     let mut ws: Vec<&TimeWindow> = s.windows().iter().collect();
     ws.sort_by_key(|w| w.start_time); // HashMap iteration order is not an observable
@@ -281,15 +311,15 @@ const INPROC: &str = "RRE_C12_INPROC";
 
 /// sliding / session `WindowedStream::new`, in-process
 fn ws_sliding_inproc(t: &[&str]) -> Option<String> {
-    let (d, cap) = (t[2].parse::<u64>().ok()?, t[3].parse::<usize>().ok()?);
+    let (d, cap) = (parse_dur(t[2])?, t[3].parse::<usize>().ok()?);
     let evs: Vec<StreamEvent> = list(t[4])
         .iter()
         .enumerate()
         .map(|(i, tok)| parse_ev(tok).map(|e| mk_event(i, &e)))
         .collect::<Option<Vec<_>>>()?;
     let cfg = match t[1] {
-        "S" => WindowConfig::sliding(Duration::from_millis(d)),
-        "N" => WindowConfig::session(Duration::from_millis(d)),
+        "S" => WindowConfig::sliding(d),
+        "N" => WindowConfig::session(d),
         _ => return None,
     }
     .with_max_events(cap);
@@ -353,15 +383,15 @@ fn exec_ws_sliding(t: &[&str]) -> Option<String> {
 }
 
 fn exec_an(t: &[&str]) -> Option<String> {
-    let (d, cap) = (t[2].parse::<u64>().ok()?, t[3].parse::<usize>().ok()?);
+    let (d, cap) = (parse_dur(t[2])?, t[3].parse::<usize>().ok()?);
     let spec = match t[1] {
         "-" => None,
         // session: `d` is the timeout; the node does not read `duration` in this mode, so it is set to something else
         "E" => Some(WindowSpec {
-            duration: Duration::from_millis(3 * d + 7),
-            window_type: WindowType::Session { timeout: Duration::from_millis(d) },
+            duration: d.saturating_mul(3).saturating_add(Duration::from_millis(7)),
+            window_type: WindowType::Session { timeout: d },
         }),
-        s => Some(WindowSpec { duration: Duration::from_millis(d), window_type: wtype(s)? }),
+        s => Some(WindowSpec { duration: d, window_type: wtype(s)? }),
     };
     let mut node = StreamAlphaNode::new(STREAM, Some(ETYPE.to_string()), spec).with_max_events(cap);
     let mut steps = Vec::new();
@@ -423,6 +453,64 @@ fn exec_ag(t: &[&str]) -> Option<String> {
     Some(format!("{}/{}/{}/{}/{}/{}", first, last, distinct, by, pcts.join(","), std))
 }
 
+/// a result over all of f64, canonical: integer, p / q (infinities), z (any NaN), M / L (±f64::MAX), else the bit pattern
+fn xnum(x: f64) -> String {
+    if x.is_nan() {
+        "z".into()
+    } else if x == f64::INFINITY {
+        "p".into()
+    } else if x == f64::NEG_INFINITY {
+        "q".into()
+    } else if x == f64::MAX {
+        "M".into()
+    } else if x == f64::MIN {
+        "L".into()
+    } else {
+        num(x)
+    }
+}
+fn oxnum(x: Option<f64>) -> String {
+    x.map(xnum).unwrap_or_else(|| "-".into())
+}
+
+/// min / max / sum of one window whose numeric fields range over all of f64 (infinities, NaN, ±f64::MAX)
+fn exec_xv(t: &[&str]) -> Option<String> {
+    let mut w = TimeWindow::new(WindowType::Sliding, Duration::from_millis(1_000_000), 0, 100_000);
+    let evs: Vec<Ev> = list(t[2]).iter().map(|tok| parse_ev(tok)).collect::<Option<Vec<_>>>()?;
+    for (i, e) in evs.iter().enumerate() {
+        match t[1] {
+            "r" => w.record(mk_event(i, e)),
+            "a" => {
+                if !w.add_event(mk_event(i, e)) {
+                    return None;
+                }
+            }
+            _ => return None,
+        }
+    }
+    if w.count() != evs.len() {
+        return None; // the case is about one window holding all the events
+    }
+    let has = |c: &str| evs.iter().any(|e| c.contains(e.val.as_str()));
+    let f = || FIELD.to_string();
+    let sum = if has("zML") { "n".to_string() } else { xnum(w.sum(FIELD)) };
+    let all: Vec<StreamEvent> = w.events().iter().cloned().collect();
+    let o = if has("z") {
+        "n,n".to_string()
+    } else {
+        format!("{},{}", oxnum(or(Min::new(FIELD).aggregate(&all))), oxnum(or(Max::new(FIELD).aggregate(&all))))
+    };
+    Some(format!(
+        "{},{},{}/{},{}/{}",
+        oxnum(w.min(FIELD)),
+        oxnum(w.max(FIELD)),
+        sum,
+        oxnum(ar(Aggregator::new(AggregationType::Min { field: f() }).aggregate(&w))),
+        oxnum(ar(Aggregator::new(AggregationType::Max { field: f() }).aggregate(&w))),
+        o
+    ))
+}
+
 fn exec_inner(case: &str) -> Option<String> {
     let t: Vec<&str> = case.split_whitespace().collect();
     match (t.first().copied(), t.len()) {
@@ -431,6 +519,7 @@ fn exec_inner(case: &str) -> Option<String> {
         (Some("WS"), 5) => exec_ws(&t),
         (Some("AN"), 5) => exec_an(&t),
         (Some("AG"), 2) => exec_ag(&t),
+        (Some("XV"), 3) => exec_xv(&t),
         _ => None,
     }
 }
@@ -783,6 +872,139 @@ fn gen_epoch(rng: &mut Rng, k: usize) -> String {
     shift_case(&case, base)
 }
 
+/// Family "micro": durations that are NOT a whole number of milliseconds (`Duration::from_micros`), for every component and
+/// window type: any case of the generators above with its duration `d` ms replaced by `d` ms + 0 / 1 / 400 / 500 / 900 / 999 µs.
+/// Every site reads the duration with `as_millis()` (truncation), so the windows are those of `d` ms — in particular the
+/// grouping grid of `WindowedStream::new` and the span `TimeWindow::new` gives each window must agree (0.5 ms and above would
+/// round up), and `d = 0` stays the sub-millisecond case.
+const FRACS: [u64; 6] = [500, 900, 400, 999, 1, 0];
+
+fn gen_micro(rng: &mut Rng, k: usize) -> String {
+    let case = match k % 8 {
+        0 => gen_tw(rng),
+        1 => gen_wm(rng),
+        2 | 3 => gen_ws(rng),
+        4 => gen_an(rng),
+        5 => gen_wm_fixed(rng),
+        6 => gen_ws_sliding(rng),
+        _ => gen_an_session(rng),
+    };
+    let frac = FRACS[(k / 8) % FRACS.len()];
+    let mut t: Vec<String> = case.split_whitespace().map(|x| x.to_string()).collect();
+    if let Ok(d) = t[2].parse::<u64>() {
+        t[2] = format!("u{}", d * 1000 + frac);
+    }
+    t.join(" ")
+}
+
+/// Family "huge": effectively unbounded windows — `Duration::from_millis(u64::MAX)`, `u64::MAX - 1`, 2^63, 2^63 + 1,
+/// `u64::MAX` minus an epoch-sized amount, and a large value that does not overflow when added to a timestamp. A sliding
+/// alpha node / `record` window of that length retains every event that is not in the future (up to the cap); `now - d`
+/// saturates at 0 in the code (`Nat` subtraction in the model), `timestamp + d` must never be formed. Clocks and timestamps
+/// small, or epoch sized. Also a tumbling and a session node of that length (one window / one session holds everything).
+const HUGE: [u64; 6] = [u64::MAX, u64::MAX - 1, 1 << 63, (1 << 63) + 1, u64::MAX - 1_700_000_000_000, u64::MAX / 1000];
+
+fn gen_huge(rng: &mut Rng, k: usize) -> String {
+    let d = HUGE[k % HUGE.len()];
+    let base = *rng.pick(&[0u64, 0, 1_700_000_000_123, 1 << 40]);
+    let len = rng.range(1, 12) as usize;
+    let kind = (k / HUGE.len()) % 5;
+    if kind == 3 {
+        // TimeWindow::record / add_event on a window [0, d): `start + d` must not overflow, so start = 0
+        let cap = *rng.pick(&[1usize, 2, 3, 100, 100, 100]);
+        let ts = gen_ts(rng, len, base, base + 40);
+        let ops: Vec<String> =
+            ts.iter().map(|t| format!("{}{}:{}", if rng.chance(3, 4) { 'r' } else { 'a' }, t, gen_val(rng))).collect();
+        return format!("TW S {} 0 {} {}", d, cap, join_nums(&ops));
+    }
+    let ty = match kind {
+        0 | 1 | 2 => "S",
+        _ => {
+            if rng.chance(1, 2) {
+                "T"
+            } else {
+                "E"
+            }
+        }
+    };
+    let cap = *rng.pick(&[1usize, 2, 3, 100, 100, 10000]);
+    let mut now = base + rng.below(30);
+    let mut ops = Vec::new();
+    for _ in 0..len {
+        now += rng.below(2000);
+        let ts = match rng.below(8) {
+            0 => now,
+            1 => now + 1, // in the future: refused by a sliding window
+            2 => 0,
+            3 => base,
+            _ => now.saturating_sub(rng.below(6000)),
+        };
+        let fl = if rng.chance(1, 16) { "x" } else { "" };
+        ops.push(format!("{}@{}:{}{}", now, ts, gen_val(rng), fl));
+    }
+    format!("AN {} {} {} {}", ty, d, cap, join_nums(&ops))
+}
+
+/// Family "xv": numeric fields over ALL of f64 — infinities (an overflowed reading), NaN, ±f64::MAX — next to ordinary
+/// integers, non-numeric and missing fields; min / max (and the sum where it does not depend on the order of addition) of one
+/// window through TimeWindow, Aggregator and operators::{Min,Max}. The extreme may be infinite, every value may be NaN, the
+/// non-finite value may come first, last or alone.
+fn gen_xv(rng: &mut Rng, k: usize) -> String {
+    let len = match k % 6 {
+        0 => 1,
+        1 => 2,
+        _ => rng.range(1, 12) as usize,
+    };
+    let specials: &[&str] = match (k / 6) % 6 {
+        0 => &["p"],
+        1 => &["q"],
+        2 => &["p", "q"],
+        3 => &["z"],
+        4 => &["p", "q", "z"],
+        _ => &["p", "q", "z", "M", "L"],
+    };
+    let dense = rng.chance(1, 3); // mostly special values
+    let evs: Vec<String> = (0..len)
+        .map(|i| {
+            let r = rng.below(10);
+            let v = if r == 0 {
+                "s".to_string()
+            } else if r == 1 {
+                "m".to_string()
+            } else if r <= 4 || dense {
+                rng.pick(specials).to_string()
+            } else if r <= 7 {
+                format!("n{}", rng.range(0, 25) as i64 - 5)
+            } else {
+                format!("i{}", rng.range(0, 25) as i64 - 5)
+            };
+            format!("{}:{}", i + 1, v)
+        })
+        .collect();
+    format!("XV {} {}", if k % 2 == 0 { "r" } else { "a" }, join_nums(&evs))
+}
+
+/// every value sequence of length <= 3 over {1, -2, +inf, -inf, NaN, missing}
+fn exhaustive_xv(out: &mut Vec<String>) {
+    let dom = ["n1", "i-2", "p", "q", "z", "m"];
+    let mut frontier: Vec<Vec<&str>> = vec![vec![]];
+    for _ in 0..3 {
+        let mut next = Vec::new();
+        for s in &frontier {
+            for v in dom {
+                let mut s2 = s.clone();
+                s2.push(v);
+                next.push(s2);
+            }
+        }
+        for s in &next {
+            let evs: Vec<String> = s.iter().enumerate().map(|(i, v)| format!("{}:{}", i + 1, v)).collect();
+            out.push(format!("XV {} {}", if s.len() % 2 == 1 { "r" } else { "a" }, join_nums(&evs)));
+        }
+        frontier = next;
+    }
+}
+
 /// every timestamp sequence of length <= k over 0..dom for `record` on a sliding window
 fn exhaustive_records(k: usize, dom: u64, out: &mut Vec<String>) {
     let mut frontier: Vec<Vec<u64>> = vec![vec![]];
@@ -883,13 +1105,25 @@ fn gen(rng: &mut Rng, n: usize, tier: &str) -> Vec<String> {
     for k in 0..(n / 8).max(54) {
         out.push(gen_epoch(rng, k));
     }
+    // durations with a sub-millisecond fraction (n/16 cases), effectively unbounded windows (n/20), numeric fields over all
+    // of f64 (every short value sequence + n/10 random ones); drawn last: the random stream of the cases above is unchanged
+    for k in 0..(n / 16).max(96) {
+        out.push(gen_micro(rng, k));
+    }
+    for k in 0..(n / 20).max(60) {
+        out.push(gen_huge(rng, k));
+    }
+    exhaustive_xv(&mut out);
+    for k in 0..(n / 10).max(72) {
+        out.push(gen_xv(rng, k));
+    }
     out
 }
 
 // ---------------------------------------------------------------- shrink
 fn shrink(case: &str) -> Vec<String> {
     let t: Vec<&str> = case.split_whitespace().collect();
-    if t.len() < 5 && !(t.len() == 2 && t[0] == "AG") {
+    if t.len() < 5 && !(t.len() == 2 && t[0] == "AG") && !(t.len() == 3 && t[0] == "XV") {
         return vec![];
     }
     let last = t.len() - 1;
